@@ -143,7 +143,27 @@ def run(ctx):
     reals = SC.run_scripts(ctx, "session", scripts)
     for s, r in zip(scripts, reals):
         oracle(ctx, s, r)
+        W.refused_leaves_no_trace(ctx, s, r, "c12")
     check_ports(ctx, rng)
+    # POWEROFF forgets all queued bursts whatever the clock thread is doing at that moment: the power command on the socket thread
+    # racing one tick on the clock thread, on two real threads over the real objects under the schedule driver of C03 (vp/sched_driver.py)
+    from .. import sched_driver as SD
+    nsch = 0
+    for hop in (False, True):
+        for q in ([(1, 10)], [(1, 9), (2, 10), (3, 10), (4, 11)], [(1, 11), (2, 12)]):
+            scheds = [[rng.below(2) for _ in range(14)] for _ in range(12 if ctx.tier == "quick" else 300)] + [[1, 1, 1, 1, 1, 0, 0, 0, 0, 0, 0, 1], [0] * 14, [1] * 14]
+            for sched in scheds:
+                c = (10, True, hop, ("poweroff",), q, sched)
+                ctx.in_flight = c
+                o, trace, states = SD.run_one(*c)
+                nsch += 1
+                ne = o[3]
+                nst = o[4 + ne]
+                nq = o[5 + ne + nst]
+                if o[0] or nq != 0 or states[2]:
+                    ctx.oracle_fail("bursts are still queued after POWEROFF (or the clock thread died / touched the queue outside its lock) under one thread schedule",
+                                    dict(tick=10, hopping=hop, queue=q, schedule=sched, trace=trace, left_in_queue=o[6 + ne + nst:6 + ne + nst + nq]), key="c12-poweroff-queue-race")
+    ctx.count("poweroff_schedules", nsch)
     ctx.sample(dict(trx_defs=scripts[0][0], ops=[SC.describe(o) for o in scripts[0][1][:12]]))
     ctx.count("operations", sum(len(s[1]) for s in scripts))
     ctx.extra["rule"] = ("application configurations from random --trx definitions (children of BTS/MS, extra parents) through the real Application constructor; "
